@@ -222,3 +222,24 @@ def r5(ctx: Ctx) -> None:
         pos += 1
         ok = ok and zero_guard and vol[0] == "call" and key(vol[1]) == "min"
     ctx.check(ok and pos >= 1, f, w.loop.node, "allocated volume is min(remaining buy, remaining sell) and is checked to be non-zero", "volume = min(b, s); volume == 0 -> raise", f"{pos} allocating path(s), all guarded: {ok}")
+
+
+@rule("C03.H3", "necessary for `never raises`: a round is started only while the execution switch, read at that moment, is on (the halt rule clears it together with the running flag the round asserts)", "T3 guard (same rule as C09.R2)", floor=8)
+def h3(ctx: Ctx) -> None:
+    from .c09 import r2 as gate_rule
+
+    gate_rule(ctx)
+
+
+@rule("C03.H4", "necessary for `never raises`: a market is stopped only together with the session switch and a record that lets it restart", "T3/T7 (same rule as C16.R2)", floor=2)
+def h4(ctx: Ctx) -> None:
+    from .c16 import r2 as halt_rule
+
+    halt_rule(ctx)
+
+
+@rule("C03.H5", "necessary for `never raises`: expiry and cancel bookkeeping stay consistent with the queue (the round's removal of a filled order finds its entry)", "T4 (same rule as C04.R6)", floor=4)
+def h5(ctx: Ctx) -> None:
+    from .c04 import r6 as removal_rule
+
+    removal_rule(ctx)
